@@ -140,7 +140,8 @@ class LogPassData:
             self.rec_first.append(f)
             b = bytes([d['data_type'], 0])
             if self.indirect:
-                b += word_bytes(d['depth_rc'], enc_int(d['depth_rc'], self.x[f], d.get('shift68', 0)))
+                xr = self.x[f] if f < self.total else (self.x[-1] + self.step_x if self.x else d['x0'])
+                b += word_bytes(d['depth_rc'], enc_int(d['depth_rc'], xr, d.get('shift68', 0)))
             for i in range(f, f + n):
                 for ci, (size, samples, rc) in enumerate(self.chans):
                     for w in self.words[i][ci]:
@@ -176,7 +177,7 @@ def random_chans(rng, k, first_rc=None, small=False):
     return chans
 
 
-def random_logpass_desc(rng, data_type=0, indirect=None, max_ch=6, max_rec=6, max_fpr=7, small=False, jitter=False):
+def random_logpass_desc(rng, data_type=0, indirect=None, max_ch=6, max_rec=6, max_fpr=7, small=False, jitter=False, zero_rec=0.0):
     indirect = rng.random() < 0.5 if indirect is None else indirect
     up_down = rng.choice([1, 255, 0])
     k = rng.randint(1, max_ch)
@@ -197,6 +198,8 @@ def random_logpass_desc(rng, data_type=0, indirect=None, max_ch=6, max_rec=6, ma
         fpr = [n0] * nrec; fpr[-1] = rng.randint(1, n0)     # short last record
     else:
         fpr = [rng.randint(1, max_fpr) for _ in range(nrec)]   # irregular
+    if indirect and zero_rec and rng.random() < zero_rec:
+        fpr.insert(rng.randint(0, len(fpr)), 0)     # a data record holding only the X word (known finding F22)
     total = sum(fpr)
     lo, hi = int_range(xrc)
     sp = rng.choice([1, 2, 5, 60, 10, rng.randint(1, 300)])
